@@ -1157,8 +1157,15 @@ class Interp:
         v = self.val_force(self.eval(n["e"], fr))
         if isinstance(v, (IntV, BoolV)):
             return v
+        if isinstance(v, LinV):
+            v = SymV(repr(v), n["e"].get("ty") if isinstance(n.get("e"), dict) else None)
         if isinstance(v, SymV):
-            return SymV("(%s as %s)" % (v.name, self.facts.short_ty(n["ty"])), n["ty"])
+            out = SymV("(%s as %s)" % (v.name, self.facts.short_ty(n["ty"])), n["ty"])
+            out.cast_from = v
+            h = self.hooks.get("cast")
+            if h is not None:
+                h(self, v, out, n)
+            return out
         if isinstance(v, RefV):
             return v
         raise Unrecognised("cast of %r" % (v,))
